@@ -47,7 +47,15 @@ class World:
         self.started = False
         # somebody watches: OfferService / StopOfferService entries of the messages reach the real discovery part
         import someip.sd as _sd
-        self.prot.discovery.watch_all_services(_sd.ClientServiceListener())
+
+        class Raising(_sd.ClientServiceListener):
+            """an application listener that fails for one particular service"""
+
+            def service_offered(self, service, source):
+                if service.service_id == 0x4344:
+                    raise RuntimeError("application listener failed")
+
+        self.prot.discovery.watch_all_services(Raising())
 
     def _spy(self, comp, addr):
         self.calls.append((comp, addr))
@@ -96,7 +104,11 @@ class World:
         if self.with_entry:
             entries = [("find", 0x4242, 0xFFFF, 0xFF, 3, 0xFFFFFFFF, (), ())]
         ent = letter[6] if len(letter) > 6 else 0
-        if ent:
+        if ent == 3:
+            # an offer the application's listener fails on (each time a new instance, so that it is 'new' every time)
+            self.raising_n = getattr(self, "raising_n", 0) + 1
+            entries = entries + [("offer", 0x4344, 1 + self.raising_n % 0xFFF0, 1, 0xFFFFFF, 0, (), ())]
+        elif ent:
             entries = entries + [("offer", 0x4343, 1, 1, 3 if ent == 1 else 0, 0, (), ())]  # 1: offer, 2: stop-offer
         data = refcodec.sd_message(sid, entries, reboot=bool(flag), unicast=bool(uflag))
         prefix = letter[5] if len(letter) > 5 else 0
@@ -146,6 +158,8 @@ def model_step(model: dict, letter):
 def judge(letter, detect, calls, returns, exc):
     sender = letter[0]
     out = []
+    if exc and len(letter) > 6 and letter[6] == 3:
+        exc = None  # the application's own exception may propagate; what was received still counts as received
     if detect is None:
         if exc or calls or returns:
             out.append(dict(clause="lifecycle", disc=exc or "spurious-detection", detail=f"start/stop: exc={exc} calls={calls}"))
@@ -252,7 +266,7 @@ def check(ctx):
         # the message shares its datagram with an undecodable SD message / a foreign message in front of it or behind it
         ("one-sender-datagram-neighbours-closure", [l + (1, p) for l in letters("P", (0, 1)) for p in (0, 1, 2, 3, 4)], 10 ** 6, True),
         # the messages carry an offer / a stop-offer of a watched service (what they say must not touch the comparison)
-        ("one-sender-offers-and-stopoffers-closure", [l + (1, 0, e) for l in letters("P", (0, 1)) for e in (0, 1, 2)], 10 ** 6, False),
+        ("one-sender-offers-and-stopoffers-closure", [l + (1, 0, e) for l in letters("P", (0, 1)) for e in (0, 1, 2, 3)], 10 ** 6, False),
         # the receiving endpoint is started late, or stopped and started again, between messages
         ("one-sender-endpoint-lifecycle-closure", letters("P", (0, 1)) + [("@", 0, 0, 0)], 10 ** 6, False),
     ]
